@@ -397,13 +397,12 @@ Proof.
     + rewrite ?app_nil_r. reflexivity.
 Qed.
 
-(* the positive theorem excludes exactly the reason code on which the tables differ (143) *)
-Theorem decode_unsuback5_faithful_except_143 : forall s its compact fb body,
-  legal_unsuback V5 s = true -> ~ In 143 (ua_codes s) -> same_per_id (items_unsuback s) its ->
+Theorem decode_unsuback5_faithful : forall s its compact fb body,
+  legal_unsuback V5 s = true -> same_per_id (items_unsuback s) its ->
   spec_body V5 (Unsuback s) its compact = Some (fb, body) ->
   decode_unsuback_packet5 fb body = Ok (Unsuback s).
 Proof.
-  intros s its compact fb body Hleg H143 Hs Hb. cbn [spec_body] in Hb.
+  intros s its compact fb body Hleg Hs Hb. cbn [spec_body] in Hb.
   destruct (items_allowed 11 its) eqn:Hal; [|discriminate].
   destruct (w_u16 (ua_pid s)) as [pidb|] eqn:Wp; [|discriminate].
   destruct (print_properties its) as [props|] eqn:Pp; [|discriminate].
@@ -422,30 +421,18 @@ Proof.
   destruct (properties_any_order unsuback_arm items_unsuback ua_hdr 11 ua_canon unsuback_arm_step its ps s0 p Hps Hal eq_refl)
     as [s' [Hd [Hv [Hh Hi]]]]; [exact Hs | reflexivity |].
   rewrite Hd. cbn [obind].
-  (* the codes: every code of the packet is a specification code other than 143 *)
-  assert (Hc : decode_codes (conv_table impl_unsuback_code_ok) cb = Ok (ua_codes s)).
-  { apply (w_codes_decode (fun b => spec_unsuback_code_ok b && negb (b =? 143)) impl_unsuback_code_ok); [| | exact Wc].
-    - intros b Hb Hok. apply andb_true_iff in Hok. destruct Hok as [Hok Hn].
-      rewrite reason_codes_unsuback_except; auto; [lia|].
-      intros ->. vm_compute in Hok. discriminate.
-    - clear -Hcodes H143. induction (ua_codes s) as [|c r IH]; [reflexivity|].
-      cbn [forallb] in *. apply andb_true_iff in Hcodes. destruct Hcodes as [H1 H2].
-      rewrite H1, IH; auto; [|intros Hin; apply H143; right; exact Hin].
-      destruct (N.eqb_spec c 143) as [->|]; [exfalso; apply H143; left; reflexivity | reflexivity]. }
-  rewrite Hc. cbn [obind]. f_equal. f_equal.
+  rewrite (w_codes_decode spec_unsuback_code_ok impl_unsuback_code_ok) with (codes := ua_codes s);
+    [| intros b Hb Hok; apply reason_codes_unsuback_spec_accepted; assumption | exact Hcodes | exact Wc].
+  cbn [obind]. f_equal. f_equal.
   assert (E : s' = p) by (apply ua_ext; auto; apply Hi; reflexivity).
   rewrite E. unfold p. destruct s; reflexivity.
 Qed.
 
-(* REFUTED at full strength: a specification-conformant UNSUBACK carrying 0x8F is rejected *)
-Theorem decode_unsuback5_refuted :
-  exists s fb body,
-    legal_unsuback V5 s = true /\ spec_body V5 (Unsuback s) (items_unsuback s) 0 = Some (fb, body) /\
-    decode_unsuback_packet5 fb body = Err EDecodingFailure.
-Proof.
-  exists {| ua_pid := 1; ua_reason := None; ua_up := None; ua_codes := [143] |}, 176, [0; 1; 0; 143].
-  repeat split; vm_compute; reflexivity.
-Qed.
+(* regression of the former defect D1 (fixed by 4bdb294): 0x8F decodes *)
+Example decode_unsuback5_143 :
+  decode_unsuback_packet5 176 [0; 1; 0; 143] =
+  Ok (Unsuback {| ua_pid := 1; ua_reason := None; ua_up := None; ua_codes := [143] |}).
+Proof. vm_compute. reflexivity. Qed.
 
 Theorem decode_unsuback311_faithful : forall s its compact fb body,
   legal_unsuback V311 s = true ->
